@@ -43,15 +43,17 @@ struct weekday {
 
     constexpr auto operator+=(days const& d) noexcept -> weekday&
     {
-        _wd += d.count();
-        _wd %= 7;
+        auto const wdu = static_cast<long long>(_wd) + d.count();
+        auto const wk  = (wdu >= 0 ? wdu : wdu - 6) / 7;
+        _wd            = static_cast<etl::uint8_t>(wdu - wk * 7);
         return *this;
     }
 
     constexpr auto operator-=(days const& d) noexcept -> weekday&
     {
-        _wd -= d.count();
-        _wd %= 7;
+        auto const wdu = static_cast<long long>(_wd) - d.count();
+        auto const wk  = (wdu >= 0 ? wdu : wdu - 6) / 7;
+        _wd            = static_cast<etl::uint8_t>(wdu - wk * 7);
         return *this;
     }
 
@@ -83,14 +85,18 @@ private:
 
 [[nodiscard]] constexpr auto operator+(weekday const& lhs, days const& rhs) noexcept -> weekday
 {
-    return weekday{static_cast<unsigned>((static_cast<int32_t>(lhs.c_encoding()) + rhs.count()) % 7)};
+    auto tmp = lhs;
+    tmp += rhs;
+    return tmp;
 }
 
 [[nodiscard]] constexpr auto operator+(days const& lhs, weekday const& rhs) noexcept -> weekday { return rhs + lhs; }
 
 [[nodiscard]] constexpr auto operator-(weekday const& lhs, days const& rhs) noexcept -> weekday
 {
-    return weekday{static_cast<unsigned>((static_cast<int32_t>(lhs.c_encoding()) - rhs.count()) % 7)};
+    auto tmp = lhs;
+    tmp -= rhs;
+    return tmp;
 }
 
 [[nodiscard]] constexpr auto operator-(weekday const& lhs, weekday const& rhs) noexcept -> days
